@@ -342,7 +342,10 @@ func (c *Ctx) crashFamily() *simpleVerdict {
 				continue
 			}
 			callM(c, m, ct, "SetAutoVariables", c2, auto)
-			callM(c, m, ct, "SetExpression", c2, e)
+			if _, so := callM(c, m, ct, "SetExpression", c2, e); so.kind == "opaque" {
+				crashFamKinds[so.kind]++
+				continue // the calculator is half-updated: what it does next says nothing about the library
+			}
 			_, eo := callM(c, m, ct, "Evaluate", c2)
 			crashFamKinds[eo.kind]++
 			// clearing the values of the variables leaves them evaluable (as nulls)
